@@ -371,6 +371,10 @@ func runHist(e *eng.Eng, seq int, ops []op) (obs string, fails [][2]string, feat
 				tag := "-"
 				if me.explicit && me.readOnly {
 					tag = "readonly_txn_write_panics"
+					// validateReadOnlyTransaction runs on the resolved plan: the table's snapshot is already
+					// registered in Session.tables (as by a read), so a later commit of this session that erases
+					// foreign rows of o.t is the listed commit_overwrites_read_table, not something new
+					me.touched[o.t] = true
 				}
 				fail(tag, fmt.Sprintf("op %d `%s` (session %d) panicked: %s", idx, text, o.s, r.Panic))
 				feats["crash"] = true
@@ -612,11 +616,155 @@ func genSerial(r *hx.Rand, thorough bool) []op {
 	return ops
 }
 
+// genReadOnly: a READ ONLY transaction of one session in which writes are attempted (they panic after
+// having resolved — i.e. registered — their table), interleaved with committed writes of the other
+// sessions, ended by COMMIT / BEGIN / START TRANSACTION READ ONLY / DDL / ROLLBACK and followed by reads.
+// Densifies the combination readonly_txn_write_panics × commit_overwrites_read_table (1 history in
+// 40 000 of the interleaved stream reached it).
+func genReadOnly(r *hx.Rand, thorough bool) []op {
+	ro := r.Intn(3)
+	nextFresh := 100
+	fresh := func() int { nextFresh++; return nextFresh - 1 }
+	var ops []op
+	for k := r.Range(0, 2); k > 0; k-- {
+		ops = append(ops, op{kind: "i", s: r.Intn(3), t: r.Intn(2), n: fresh()})
+	}
+	ops = append(ops, op{kind: "bro", s: ro})
+	n := r.Range(3, 8)
+	if thorough {
+		n = r.Range(3, 12)
+	}
+	for i := 0; i < n; i++ {
+		o := op{s: ro, t: r.Intn(2), form: r.Intn(6)}
+		switch x := r.Intn(10); {
+		case x < 3: // attempted write in the READ ONLY transaction
+			o.kind = "i"
+			o.n = fresh()
+			if r.Chance(1, 3) {
+				o.kind = "d"
+				o.n = 100 + r.Intn(nextFresh-100)
+			}
+		case x < 5:
+			o.kind = "r"
+		case x < 9: // committed write of another session
+			o.s = (ro + 1 + r.Intn(2)) % 3
+			o.kind = "i"
+			o.n = fresh()
+			if r.Chance(1, 4) {
+				o.kind = "d"
+				o.n = 100 + r.Intn(nextFresh-100)
+			}
+		default:
+			o.s = (ro + 1 + r.Intn(2)) % 3
+			o.kind = "r"
+		}
+		ops = append(ops, o)
+	}
+	end := []string{"c", "c", "b", "bro", "ddl", "rb"}[r.Intn(6)]
+	ops = append(ops, op{kind: end, s: ro, form: r.Intn(2)})
+	for k := r.Range(1, 3); k > 0; k-- {
+		o := op{s: r.Intn(3), t: r.Intn(2)}
+		switch x := r.Intn(4); {
+		case x < 2:
+			o.kind = "r"
+		case x < 3:
+			o.kind = "i"
+			o.n = fresh()
+		default:
+			o.kind = []string{"c", "rb"}[r.Intn(2)]
+			o.s = ro
+		}
+		ops = append(ops, o)
+	}
+	return ops
+}
+
+// genImplicit: a session with autocommit = 0 — its statements accumulate in an implicit transaction —
+// whose pending work is then ended by BEGIN / START TRANSACTION [READ ONLY] (commit the pending work),
+// COMMIT, ROLLBACK, DDL (implicit commit) or SET autocommit = 1 (commit), interleaved with reads and
+// committed writes of the other sessions. The interleaved stream reaches "pending implicit work, then
+// BEGIN" in only 0-5 of 1200 histories.
+func genImplicit(r *hx.Rand, thorough bool) []op {
+	me := r.Intn(3)
+	nextFresh := 100
+	fresh := func() int { nextFresh++; return nextFresh - 1 }
+	other := func() int { return (me + 1 + r.Intn(2)) % 3 }
+	var ops []op
+	for k := r.Range(0, 2); k > 0; k-- {
+		ops = append(ops, op{kind: "i", s: r.Intn(3), t: r.Intn(2), n: fresh()})
+	}
+	ops = append(ops, op{kind: "ac", s: me, n: 0, form: r.Intn(3)})
+	rounds := r.Range(1, 2)
+	if thorough {
+		rounds = r.Range(1, 3)
+	}
+	explicit := false
+	for ; rounds > 0; rounds-- {
+		for k := r.Range(2, 5); k > 0; k-- {
+			o := op{s: me, t: r.Intn(2), form: r.Intn(6)}
+			switch x := r.Intn(10); {
+			case x < 4:
+				o.kind = "i"
+				o.n = fresh()
+				if r.Chance(1, 4) {
+					o.n = 1 + r.Intn(3)
+				}
+			case x < 5:
+				o.kind = "d"
+				o.n = 100 + r.Intn(nextFresh-100)
+			case x < 6:
+				o.kind = "r"
+			case x < 8:
+				o.s = other()
+				o.kind = "r"
+			default: // committed write of another session
+				o.s = other()
+				o.kind = "i"
+				o.n = fresh()
+			}
+			ops = append(ops, o)
+		}
+		end := op{s: me, form: r.Intn(6)}
+		switch x := r.Intn(12); {
+		case x < 4:
+			end.kind = "b"
+			explicit = true
+		case x < 5:
+			end.kind = "bro"
+			explicit = true
+		case x < 7:
+			end.kind = "c"
+			explicit = false
+		case x < 9:
+			end.kind = "rb"
+			explicit = false
+		case x < 10:
+			end.kind = "ddl"
+			explicit = false
+		default:
+			if explicit { // SET autocommit inside an explicit transaction is outside the envelope
+				end.kind = "c"
+				explicit = false
+			} else {
+				end.kind = "ac"
+				end.n = r.Intn(2)
+			}
+		}
+		ops = append(ops, end, op{kind: "r", s: other(), t: r.Intn(2)})
+	}
+	if r.Chance(1, 2) {
+		ops = append(ops, op{kind: []string{"c", "rb"}[r.Intn(2)], s: me})
+	}
+	ops = append(ops, op{kind: "r", s: other(), t: r.Intn(2)}, op{kind: "r", s: me, t: r.Intn(2)})
+	return ops
+}
+
 func corpus() [][]op {
 	r := func(s, t int) op { return op{kind: "r", s: s, t: t} }
 	i := func(s, t, n int) op { return op{kind: "i", s: s, t: t, n: n} }
 	d := func(s, t, n int) op { return op{kind: "d", s: s, t: t, n: n} }
 	k := func(kind string, s int) op { return op{kind: kind, s: s} }
+	ac := func(s, n int) op { return op{kind: "ac", s: s, n: n} }
 	return [][]op{
 		// a transaction that only read t0 erases a row committed to t0 meanwhile
 		{i(0, 0, 1), k("b", 0), r(0, 0), i(1, 0, 2), i(0, 1, 5), k("c", 0), r(1, 0)},
@@ -628,6 +776,19 @@ func corpus() [][]op {
 		{i(0, 0, 1), k("b", 0), i(0, 0, 2), d(0, 0, 1), r(0, 0), r(1, 0), k("rb", 0), r(0, 0), k("b", 1), i(1, 1, 3), r(0, 1), k("c", 1), r(0, 1)},
 		{op{kind: "ac", s: 0, n: 0}, i(0, 0, 1), r(1, 0), i(0, 0, 2), k("c", 0), r(1, 0), i(0, 0, 3), k("rb", 0), i(0, 0, 4), op{kind: "ac", s: 0, n: 1}, r(1, 0)},
 		{k("b", 0), i(0, 0, 1), k("b", 0), r(1, 0), i(0, 0, 2), k("rb", 0), r(1, 0), i(0, 0, 1), i(0, 0, 1), r(0, 0)},
+		// sweep alarm (seed 1, thorough, old seeding, case 522): the INSERT that panics in a READ ONLY transaction has
+		// already resolved its table, i.e. registered the snapshot in Session.tables; the next BEGIN of that session
+		// (implicit commit) writes the stale snapshot back and erases row 101 committed by session 0 meanwhile
+		{r(0, 0), k("bro", 2), i(2, 0, 100), r(1, 1), k("bro", 1), i(2, 1, 2), r(1, 1), r(1, 0), d(0, 1, 1), r(0, 0), r(1, 0),
+			i(0, 1, 101), k("b", 0), k("rb", 0), k("bro", 2), i(1, 0, 102), k("rb", 1), r(2, 0), k("rb", 0), d(1, 1, 1), r(1, 1)},
+		// the same, minimal: panicking write on t1 in a READ ONLY transaction, foreign commit to t1, COMMIT of the session
+		{k("bro", 2), i(2, 1, 2), i(0, 1, 101), r(2, 1), k("c", 2), r(0, 1)},
+		// … and with ROLLBACK instead (the registered snapshot is discarded, row 101 stays)
+		{k("bro", 2), d(2, 1, 2), i(0, 1, 101), k("rb", 2), r(0, 1), r(2, 1)},
+		// autocommit = 0: the pending implicit transaction is committed by BEGIN, by DDL, by SET autocommit = 1
+		{ac(0, 0), i(0, 0, 1), r(1, 0), k("b", 0), r(1, 0), i(0, 0, 2), k("rb", 0), r(1, 0)},
+		{ac(1, 0), i(1, 1, 3), r(0, 1), k("ddl", 1), r(0, 1), i(1, 1, 4), k("rb", 1), r(0, 1)},
+		{ac(2, 0), i(2, 0, 5), d(2, 0, 5), i(2, 1, 6), r(0, 1), ac(2, 1), r(0, 1), r(0, 0)},
 	}
 }
 
@@ -635,7 +796,7 @@ func run(a hx.RunArgs) error {
 	out := hx.NewOut(a.OutDir)
 	defer out.Close()
 	out.Rule = "one case = one history of 4-22 statements over 3 sessions and 2 tables (SELECT, INSERT of marker/recurring keys, DELETE, BEGIN/START TRANSACTION [READ ONLY], COMMIT, ROLLBACK, SET autocommit, CREATE TABLE), " +
-		"either arbitrarily interleaved or as non-overlapping transaction blocks; after each statement the committed tables are read through a new session; " +
+		"either arbitrarily interleaved, or as non-overlapping transaction blocks, or centred on a READ ONLY transaction with attempted writes and foreign commits, or on an autocommit=0 session whose pending work is ended in every possible way; after each statement the committed tables are read through a new session; " +
 		"non-trivial = some write was made inside an open transaction and a COMMIT or ROLLBACK followed"
 	r := hx.NewRand(a.Seed)
 	n := 1200
@@ -648,7 +809,13 @@ func run(a hx.RunArgs) error {
 		kinds[i] = "corpus"
 	}
 	for i := 0; i < n; i++ {
-		if r.Chance(1, 3) {
+		if r.Chance(1, 16) {
+			hs = append(hs, genReadOnly(r, a.Thorough))
+			kinds = append(kinds, "readonly")
+		} else if r.Chance(1, 12) {
+			hs = append(hs, genImplicit(r, a.Thorough))
+			kinds = append(kinds, "implicit")
+		} else if r.Chance(1, 3) {
 			hs = append(hs, genSerial(r, a.Thorough))
 			kinds = append(kinds, "serial")
 		} else {
